@@ -213,8 +213,16 @@ def run_shard(shard):
                 res.nontrivial += 1 if uneven else 0
                 if canonical and func in ("sum", "count", "nanmax"):
                     check_point(res, func, lab_shape, extra, lt, axis, min_count=2)  # an explicit min_count must survive partial axes
-            # chunked: canonical spellings of the axis only (order/sign variants are covered eagerly)
-            if not canonical or (quick and size > 4 and size < 8):
+            if not canonical:
+                # order / sign spellings of the axis on chunked input: first and last grid, sum, explicit and automatic plan
+                # (a descending axis tuple used to break every dask plan: "duplicate value in 'axis'" / wrong shape)
+                if not (quick and size > 4):
+                    for grid in dict.fromkeys((grids[0], grids[-1])):
+                        for method in ("map-reduce", None, "cohorts") if nax == len(lab_shape) else ("map-reduce",):
+                            check_point(res, "sum", lab_shape, extra, lt, axis, grid=grid, method=method)
+                            res.nontrivial += 1 if uneven else 0
+                continue
+            if quick and size > 4 and size < 8:
                 continue
             big = size > 4  # thorough, more than 4 label elements: five grids (first three, last two), both methods for sum only
             for grid in (grids[:2] + grids[-1:]) if quick else (grids[:3] + grids[-2:]) if (big and len(grids) > 5) else grids:
